@@ -471,7 +471,9 @@ func (a *App) Run(w Widget) error {
 			win := a.vx.Window()
 			win.Clear()
 			a.vx.HideCursor()
-			s.render(win, a.fh.focused)
+			// The root surface clips its children to its own size, as
+			// every other surface and the mouse hit test do
+			s.render(win.New(0, 0, int(s.Size.Width), int(s.Size.Height)), a.fh.focused)
 
 			switch a.refresh {
 			case true:
